@@ -1,1 +1,49 @@
-fn main(){}
+//! gridx — exhaustive enumeration of finite input / shape / fault grids on the real crate.
+mod c05;
+mod c06;
+mod c07;
+mod c11;
+mod c15;
+mod elems;
+mod grid;
+mod shapes;
+
+use vrt::json::J;
+
+#[global_allocator]
+static GLOBAL: vrt::VAlloc = vrt::VAlloc;
+
+pub fn arg(args: &[String], name: &str) -> Option<String> {
+    args.iter().position(|a| a == name).and_then(|i| args.get(i + 1).cloned())
+}
+
+fn main() {
+    let args: Vec<String> = std::env::args().collect();
+    vrt::quiet_panics();
+    vrt::rmwlog::install();
+    vrt::arena::init_thread(8 << 20, 8192, 65536);
+    if let Some(c) = arg(&args, "--child") {
+        match c.as_str() {
+            "c05ovf" => c05::child_overflow(&args),
+            "c07alloc" => c07::child_allocfail(&args),
+            _ => panic!("unknown child"),
+        }
+        return;
+    }
+    let part = arg(&args, "--part").expect("--part");
+    let tier = arg(&args, "--tier").unwrap_or("quick".into());
+    let only = arg(&args, "--only");
+    let parts: Vec<grid::Grid> = match part.as_str() {
+        "c05" => c05::run(&tier, only.as_deref()),
+        "c06" => c06::run(&tier),
+        "c07" => c07::run(&tier),
+        "c15" => c15::run(&tier),
+        "c11" => c11::run(&tier),
+        _ => panic!("unknown part"),
+    };
+    let j = J::A(parts.iter().map(|g| g.to_json()).collect());
+    match arg(&args, "--out") {
+        Some(f) => std::fs::write(f, j.dump()).unwrap(),
+        None => println!("{}", j.dump()),
+    }
+}
